@@ -54,6 +54,7 @@ FILLER = [
     "r = r'raw\\d+'",
     "doc = \"\"\"para\x0cgraph, next\u2028line\nsecond\x0bpart\x85end\n\"\"\"",
     "rep = f\"\"\"Report\nvalue:\n{1 + 1} units\n{2} more\"\"\"",
+    "chain = 1 + \\\n    \\\n    2",
 ]
 MARKUPISH = {11, 12, 13, 14}
 MULTILINE_TOKEN = {8, 19, 20}
@@ -63,6 +64,17 @@ SNIPPET_RE = re.compile(r"^\s*(?P<mark>→|>)?\s*(?P<no>\d+)(?:│|\|) ?(?P<code
 def build_source(case):
     """Returns (source text, 1-based raise line number, list of logical source lines)."""
     lines = []
+    if case.get("module_level"):
+        # the failing statement stands at column 0 of the module (possibly as the very last line of the file)
+        lines.append("import builtins as _b")
+        for i in case["before"]:
+            lines.extend(FILLER[i].split("\n"))
+        lines.append("raise _b._vf_exc")
+        raise_line = len(lines)
+        for i in case["after"]:
+            lines.extend(FILLER[i].split("\n"))
+        nl = "\r\n" if case.get("crlf") else "\n"
+        return nl.join(lines) + (nl if case.get("trailing_newline", True) else ""), raise_line, lines
     for i in case["before"]:
         lines.extend(FILLER[i].split("\n"))
     lines.append("def boom(exc):")
@@ -112,7 +124,20 @@ def check_trace(ctx, case):
     raise_line = None
     src_lines = None
     path = None
-    if origin == "file":
+    func = "boom"
+    if origin == "file" and case.get("module_level"):
+        import builtins
+
+        source, raise_line, src_lines = build_source(case)
+        func = "<module>"
+
+        def boom(exc):
+            builtins._vf_exc = exc
+            try:
+                raisers.load_source("c20", source)
+            finally:
+                del builtins._vf_exc
+    elif origin == "file":
         source, raise_line, src_lines = build_source(case)
         try:
             mod, path = raisers.load_source("c20", source)
@@ -190,10 +215,10 @@ def check_trace(ctx, case):
     out_lines = text.split("\n")
     start = None
     for i, l in enumerate(out_lines):
-        if l.strip().startswith("at ") and l.rstrip().endswith("in boom") and (":%d " % raise_line) in l:
+        if l.strip().startswith("at ") and l.rstrip().endswith("in " + func) and (":%d " % raise_line) in l:
             start = i
     if start is None:
-        ctx.fail("trace", "C20.marker", case, "an 'at file:%d in boom' line" % raise_line, text, sig="location")
+        ctx.fail("trace", "C20.marker", case, "an 'at file:%d in %s' line" % (raise_line, func), text, sig="location")
         return
     snippet = []
     for l in out_lines[start + 1:]:
@@ -233,6 +258,8 @@ def check_trace(ctx, case):
             ctx.fail("trace", "C20.verbatim", case, {"line": n, "source": want}, got, sig=sig)
             return
     # ignored frames
+    if case.get("module_level"):
+        return
     if ignore in ("match", "nomatch") and case.get("verbosity", 0) >= 1:
         listed = ("Stack trace" in text) and any(raisers.WORK.replace(os.getcwd() + os.sep, "") in l and "in rec" not in l
                                                 for l in out_lines[:start] if " in " in l)
@@ -401,7 +428,13 @@ def trace_case():
         "ignore": st.sampled_from([None, "match", "nomatch"]),
         "simple": st.integers(0, 5).map(lambda x: x == 0),
     })
-    return st.tuples(st.one_of(file_case, file_case, file_case, other_case), common).map(lambda t: dict(t[0], **t[1]))
+    module_case = st.fixed_dictionaries({
+        "origin": st.just("file"), "module_level": st.just(True),
+        "before": filler, "after": st.one_of(st.just([]), st.just([]), filler), "inside": st.just([]),
+        "inside_after": st.just([]), "trailing_newline": st.booleans(), "crlf": st.integers(0, 5).map(lambda x: x == 0),
+        "depth": st.sampled_from([0, 0, 1, 5]),
+    })
+    return st.tuples(st.one_of(file_case, file_case, file_case, module_case, other_case), common).map(lambda t: dict(t[0], **t[1]))
 
 
 HYP = {"trace": (lambda ctx: trace_case(), check_trace)}
